@@ -50,6 +50,38 @@ func checkSeq(ctx *pbt.Ctx, c Seq) error {
 	}
 	exps := make([]exp, len(c.Items))
 	var held []kept
+	// The byte slices handed over are the caller's. In half of the histories (by the shape of the
+	// case) the caller has ONE work buffer per length, refilled in place for every call, with a
+	// canary behind it; otherwise every call gets its own slice with a canary.
+	workMode := (len(c.Items)+int(c.Ctors[0]))%2 == 0
+	work := map[int][]byte{}
+	var handed [][]byte
+	own := func(b []byte) []byte {
+		if workMode {
+			w, ok := work[len(b)]
+			if !ok {
+				w = ref.Canary(b)
+				work[len(b)] = w
+				handed = append(handed, w)
+			}
+			copy(w, b)
+			return w
+		}
+		o := ref.Canary(b)
+		handed = append(handed, o)
+		return o
+	}
+	ctx.After(func() error {
+		for _, o := range handed {
+			if ref.CanaryDamaged(o) {
+				return fmt.Errorf("a constructor wrote behind the %d-byte slice it was handed (the caller's memory): %x", len(o), o[len(o):cap(o)])
+			}
+		}
+		return nil
+	})
+	if workMode {
+		ctx.Label("caller_reuses_one_work_buffer")
+	}
 	one := bt.NewTx() // one transaction collects an output per payee as well
 	var oneItems []int
 	distinct := map[string]bool{}
@@ -100,7 +132,7 @@ func checkSeq(ctx *pbt.Ctx, c Seq) error {
 		}
 		hs := hex.EncodeToString(h)
 		if on(0) {
-			s, err := bscript.NewP2PKHFromPubKeyHash(append([]byte{}, h...))
+			s, err := bscript.NewP2PKHFromPubKeyHash(own(h))
 			if err := keepS("NewP2PKHFromPubKeyHash", s, err); err != nil {
 				return err
 			}
@@ -118,7 +150,7 @@ func checkSeq(ctx *pbt.Ctx, c Seq) error {
 			}
 		}
 		if on(3) {
-			a, err := bscript.NewAddressFromPublicKeyHash(append([]byte{}, h...), it.Mainnet)
+			a, err := bscript.NewAddressFromPublicKeyHash(own(h), it.Mainnet)
 			if err := keepA("NewAddressFromPublicKeyHash", a, err); err != nil {
 				return err
 			}
@@ -131,7 +163,7 @@ func checkSeq(ctx *pbt.Ctx, c Seq) error {
 		}
 		if key != nil {
 			if on(5) {
-				s, err := bscript.NewP2PKHFromPubKeyBytes(append([]byte{}, key...))
+				s, err := bscript.NewP2PKHFromPubKeyBytes(own(key))
 				if err := keepS("NewP2PKHFromPubKeyBytes", s, err); err != nil {
 					return err
 				}
@@ -172,7 +204,7 @@ func checkSeq(ctx *pbt.Ctx, c Seq) error {
 		case oc == 1:
 			err = one.AddP2PKHOutputFromAddress(e.addr, uint64(1000+i))
 		case oc == 2 && key != nil:
-			err = one.AddP2PKHOutputFromPubKeyBytes(append([]byte{}, key...), uint64(1000+i))
+			err = one.AddP2PKHOutputFromPubKeyBytes(own(key), uint64(1000+i))
 		case oc == 3 && key != nil:
 			err = one.AddP2PKHOutputFromPubKeyStr(hex.EncodeToString(key), uint64(1000+i))
 		case oc == 4:
